@@ -40,9 +40,9 @@ func init() {
 		modes: func(tier string, seed int64) []modeSpec {
 			if tier == "thorough" {
 				return []modeSpec{
-					{name: "seq", n: 40000, perChild: 2500, timeout: 20 * time.Minute},
-					{name: "lin", n: 30000, perChild: 2000, timeout: 20 * time.Minute, env: []string{"VERIF_HOOK=chaos", "VERIF_HOOK_PROB=40", "VERIF_HOOK_MAXUS=20"}},
-					{name: "stress", n: 320, perChild: 20, race: true, timeout: 30 * time.Minute, env: []string{"VERIF_HOOK=chaos", "VERIF_HOOK_PROB=10", "VERIF_HOOK_MAXUS=5"}},
+					{name: "seq", n: 100000, perChild: 6250, timeout: 30 * time.Minute},
+					{name: "lin", n: 80000, perChild: 5000, timeout: 30 * time.Minute, env: []string{"VERIF_HOOK=chaos", "VERIF_HOOK_PROB=40", "VERIF_HOOK_MAXUS=20"}},
+					{name: "stress", n: 480, perChild: 30, race: true, timeout: 30 * time.Minute, env: []string{"VERIF_HOOK=chaos", "VERIF_HOOK_PROB=10", "VERIF_HOOK_MAXUS=5"}},
 				}
 			}
 			return []modeSpec{
